@@ -37,7 +37,7 @@ import (
 type rules struct{ net, sync, gostmt, chans, rand, time, fine bool }
 
 var pkgs = map[string]rules{
-	"cmd/rdpgw/protocol":  {net: true, sync: true, gostmt: true, chans: true},
+	"cmd/rdpgw/protocol":  {net: true, sync: true, gostmt: true, chans: true, time: true},
 	"cmd/rdpgw/kdcproxy":  {net: true, sync: true, gostmt: true, chans: true},
 	"cmd/rdpgw/transport": {sync: true, gostmt: true, chans: true},
 	"cmd/rdpgw/web":       {rand: true, fine: true},
